@@ -329,8 +329,9 @@ class Seams:
             if id_fn is not None:
                 self._set(mod, "id", id_fn)
             if time_obj is not None:
-                if d.get("time") is _real_time:
-                    self._set(mod, "time", time_obj)
+                for nm, val in list(d.items()):
+                    if val is _real_time:                 # `import time` under any alias
+                        self._set(mod, nm, time_obj)
                 # `from time import time, perf_counter, ...` style bindings
                 for nm, val in list(d.items()):
                     for fn in ("time", "perf_counter", "monotonic", "process_time", "time_ns", "sleep"):
